@@ -412,6 +412,7 @@ fn observe_pair(ret: i64, a: &VecType, b: &VecType) -> VecObs {
         eq_ab: a == b,
         cmp_ab: a.cmp(b),
         partial_cmp_ab: a.partial_cmp(b),
+        ops_ab: [a != b, a < b, a <= b, a > b, a >= b],
         b: from_native(b),
     }
 }
